@@ -27,7 +27,9 @@ JTrace == ndJsonDeserialize(IOEnv.TRACE)
 VARIABLES l, cache, ex
 vars == <<l, cache, ex>>
 Ev == JTrace[l]
-Clause(name, cond) == IF cond THEN TRUE ELSE PrintT(<<"CLAUSE-FAILED", name, l>>) /\ FALSE
+(* a clause that fails is printed with the line of the event and the trace goes on: one run judges every execution;
+   only an event that no action explains stops it *)
+Clause(name, cond) == IF cond THEN TRUE ELSE PrintT(<<"CLAUSE-FAILED", name, l>>)
 Note(name, cond) == IF cond THEN TRUE ELSE PrintT(<<"NOTE", name, l>>)
 
 ViewFile(v) == IF ~v.present THEN Missing ELSE [len |-> v.len, chunks |-> v.chunks, sum |-> v.sum]
@@ -38,9 +40,7 @@ TInit == l = 1 /\ ex = NoEx /\ cache = <<IntactOf(1), IntactOf(2), IntactOf(3), 
 (* a bundled model: files not shown do not exist *)
 TModel ==
     /\ Ev.e = "Model" /\ ex.stage = "none" /\ Ev.id = Len(cache) + 1
-    /\ LET D == [k \in {Kinds[i] : i \in 1 .. Len(Kinds)} |->
-                    IF \E j \in 1 .. Len(Ev.views) : Ev.views[j].kind = k
-                    THEN ViewFile(Ev.views[CHOOSE j \in 1 .. Len(Ev.views) : Ev.views[j].kind = k]) ELSE Missing]
+    /\ LET D == DirFromViews(Ev.views)
        IN  cache' = Append(cache, [dir |-> D, P |-> ParseDir(D, FeatCfg(D.featparams))])
     /\ ex' = ex
 
@@ -72,6 +72,7 @@ TBegin ==
           /\ LET P == ParseWith(cache[ex.model], ex.kind, ex.file)
              IN  ex' = [ex EXCEPT !.stage = "loading", !.P = P, !.verdict = Loadable3(P)]
        \/ Ev.what = "reload" /\ ex.stage \in {"loaded", "views2"} /\ ex' = [ex EXCEPT !.stage = "reloading"]
+       \/ Ev.what = "decode" /\ ex.stage = "reloaded-wait" /\ ex' = ex
     /\ cache' = cache
 
 TLoad ==
